@@ -75,16 +75,31 @@ def judge(W, run, trace):
     for nid, d in trace["pub"].items():
         if any(h != W.canon_hashes.get(g) for g, (h, _) in d.items()):
             suspicious = True
+    # Once the *public* table has been customised by a mutator, what it serves legitimately depends on
+    # when its lazy groups were loaded relative to the edit (core.py documents this), and removing the
+    # private events moves those loads.  So public isolation (O1) is then judged only for events before
+    # the first public edit and for digest groups that do not depend on an edited group.
+    first_pub_edit = {}
+    for i, (nid, ev) in enumerate(run["events"]):
+        if ev[0] in ("mutate", "mutate_walk") and ev[1] == "public":
+            first_pub_edit.setdefault(nid, i)
     if suspicious:
         cf_out, cf_tr = counterfactual(W, run)
         for i, (nid, ev) in enumerate(run["events"]):
+            if i >= first_pub_edit.get(nid, len(run["events"])):
+                continue
             if i in cf_out and outcomes[i] != cf_out[i] and (ev[0] in REPLICA_KINDS or ev[0] in ("init", "import")):
                 viol.append({"oracle": "O1", "role": "public", "group": event_group(ev),
                              "kind": classify(cf_out[i], outcomes[i]), "event": i,
                              "expected": cf_out[i], "observed": outcomes[i]})
         for nid, d in trace["pub"].items():
-            cfd = cf_tr["pub"].get(nid) or cf_tr["pub"][0]
+            cfd = cf_tr["pub"].get(nid)
+            if cfd is None:
+                # this interpreter executes nothing in the counterfactual history: a fresh node,
+                # whose public table serves the canonical values
+                cfd = {g: (W.canon_hashes.get(g), None) for g in d}
             cf_h = {g: h for g, (h, _) in cfd.items()}
+            d = {g: v for g, v in d.items() if (nid, g) not in claims.public_tainted}
             if any(h != cf_h.get(g) for g, (h, _) in d.items()):
                 def cf_detail(g, cfd=cfd):
                     det = cfd[g][1]
@@ -96,11 +111,16 @@ def judge(W, run, trace):
         nid = info.get("node", 0)
         pub = trace["pub"][nid]
         for g, (h, detail) in info["digest"].items():
-            if h == pub[g][0] or h == W.canon_hashes.get(g):
+            if h == W.canon_hashes.get(g):
                 continue
-            ref = info["pub_detail"].get(g) or W.ref_detail(g)
+            if h == pub[g][0] and (nid, g) not in claims.public_tainted:
+                continue
+            ref = info["pub_detail"].get(g) if (nid, g) not in claims.public_tainted else None
+            ref = ref or W.ref_detail(g)
             oracle = "O6" if any((t, n) in claims.failed_before for n in M.PREREQ[g]) else "O2"
             role = "private"
+            if oracle == "O2" and any(pg == g or pg in M.PREREQ[g] for (pn, pg) in claims.public_tainted if pn == nid):
+                oracle = "O8"      # the private table followed an edit made to the public table
             if oracle == "O2" and any(e[0] in ("mutate", "mutate_walk") and e[1] not in ("public", M.real_name(t))
                                       for _, e in run["events"]):
                 oracle, role = "O3", "other"
